@@ -1,0 +1,275 @@
+//go:build verif
+
+// Contracts for the verification machinery in /verif (comment-only; no declarations).
+//
+// C08: signed envelopes bind (domain, payload type, payload, signing key) to the signature.
+//
+// The cryptographic primitive (crypto.PubKey.Verify / PrivKey.Sign) is abstract: an unspecified interface
+// method. What is proved about the code is (1) the byte layout of the signed pre-image built by makeUnsigned
+// (uvarint length prefix in front of each of domain, payload type and payload - an injective encoding, see the
+// lemmas below), and (2) guard contracts: every successful Consume* path ran validate on the envelope it returns,
+// validate ran Verify under the envelope's own key on exactly makeUnsigned(domain asked for, e.PayloadType,
+// e.RawPayload) with the envelope's signature, and Seal signs exactly that encoding of what it stores.
+
+package record
+
+// ---------------------------------------------------------------------------
+// uvlen(v) / uvbyte(v, i): length and i-th byte of the unsigned varint encoding of v; defined in
+// /verif/specs/stdlib.spec together with the trusted spec of encoding/binary.AppendUvarint.
+
+// one length-prefixed field f written at offset 'at' of b
+//@ pred uvseglen(n int) = uvlen(n) + n
+//@ pred seg(b []byte, at int, f []byte) = (forall i int :: at <= i && i < at + uvlen(len(f)) ==> b[i] == uvbyte(len(f), i - at)) &&
+//@     (forall i int :: at + uvlen(len(f)) <= i && i < at + uvlen(len(f)) + len(f) ==> b[i] == f[i - (at + uvlen(len(f)))])
+
+// l is the uvarint encoding of len(f)
+//@ pred uvfield(l []byte, f []byte) = len(l) == uvlen(len(f)) && (forall j int :: 0 <= j && j < len(l) ==> l[j] == uvbyte(len(f), j))
+
+//@ func makeUnsigned
+//@ prop C08
+//@ loop 0 invariant len(fields) == 3 && len(flen) == 3 && 0 <= idx0 && idx0 <= 3
+//@ loop 0 invariant idx0 >= 1 ==> uvfield(flen[0], fields[0]) && allocated(flen[0]) && disjoint(flen[0], flen)
+//@ loop 0 invariant idx0 >= 2 ==> uvfield(flen[1], fields[1]) && allocated(flen[1]) && disjoint(flen[1], flen)
+//@ loop 0 invariant idx0 >= 3 ==> uvfield(flen[2], fields[2]) && allocated(flen[2]) && disjoint(flen[2], flen)
+//@ loop 0 invariant size == ite(idx0 >= 1, uvseglen(len(fields[0])), 0) + ite(idx0 >= 2, uvseglen(len(fields[1])), 0) + ite(idx0 >= 3, uvseglen(len(fields[2])), 0)
+//@ loop 1 invariant 0 <= idx1 && idx1 <= 3 && len(b) == size
+//@ loop 1 invariant uvfield(flen[0], fields[0]) && uvfield(flen[1], fields[1]) && uvfield(flen[2], fields[2])
+//@ loop 1 invariant disjoint(flen[0], b) && disjoint(flen[1], b) && disjoint(flen[2], b) && disjoint(fields[0], b) && disjoint(fields[1], b) && disjoint(fields[2], b)
+//@ loop 1 invariant s == ite(idx1 >= 1, uvseglen(len(fields[0])), 0) + ite(idx1 >= 2, uvseglen(len(fields[1])), 0) + ite(idx1 >= 3, uvseglen(len(fields[2])), 0)
+//@ loop 1 invariant idx1 >= 1 ==> seg(b, 0, fields[0])
+//@ loop 1 invariant idx1 >= 2 ==> seg(b, uvseglen(len(fields[0])), fields[1])
+//@ loop 1 invariant idx1 >= 3 ==> seg(b, uvseglen(len(fields[0])) + uvseglen(len(fields[1])), fields[2])
+//@ ensures result1 == nil
+//@ ensures len(result0) == uvseglen(len(domain)) + uvseglen(len(payloadType)) + uvseglen(len(payload))
+//@ ensures seg(result0, uvseglen(len(domain)), payloadType)
+//@ ensures seg(result0, uvseglen(len(domain)) + uvseglen(len(payloadType)), payload)
+//@ ensures forall j int :: 0 <= j && j < uvlen(len(domain)) ==> result0[j] == uvbyte(len(domain), j)
+// the domain segment holds the bytes of []byte(domain) (fields[0] is a local: clause not exported to callers)
+//@ ensures called(Get, 0) && strsrc(fields[0]) == domain && len(fields[0]) == len(domain) && seg(result0, 0, fields[0])
+//@ modifies nothing
+
+// validate: the only acceptance path is Verify == (true, nil) under the envelope's own key, on the buffer that
+// makeUnsigned built from (domain asked for, e.PayloadType, e.RawPayload), with the envelope's signature.
+//@ func (e *Envelope) validate
+//@ prop C08
+//@ callsite Verify#0 requires arg0 == e.PublicKey && arg2 == e.signature && arg1 == ret(makeUnsigned, 0, 0) &&
+//@         arg(makeUnsigned, 0, 0) == domain && arg(makeUnsigned, 0, 1) == e.PayloadType && arg(makeUnsigned, 0, 2) == e.RawPayload
+//@ callsite Verify#0 requires len(arg1) == uvseglen(len(domain)) + uvseglen(len(e.PayloadType)) + uvseglen(len(e.RawPayload)) &&
+//@         seg(arg1, uvseglen(len(domain)), e.PayloadType) &&
+//@         seg(arg1, uvseglen(len(domain)) + uvseglen(len(e.PayloadType)), e.RawPayload)
+//@ ensures result == nil ==> called(makeUnsigned, 0) && ret(makeUnsigned, 0, 1) == nil && called(Verify, 0) &&
+//@         ret(Verify, 0, 0) && ret(Verify, 0, 1) == nil
+//@ ensures result == nil ==> arg(Verify, 0, 0) == e.PublicKey && arg(Verify, 0, 1) == ret(makeUnsigned, 0, 0) && arg(Verify, 0, 2) == e.signature
+//@ ensures result == nil ==> arg(makeUnsigned, 0, 0) == domain && arg(makeUnsigned, 0, 1) == e.PayloadType && arg(makeUnsigned, 0, 2) == e.RawPayload
+//@ ensures called(Verify, 0) && !ret(Verify, 0, 0) ==> result != nil
+//@ ensures called(Verify, 0) && ret(Verify, 0, 1) != nil ==> result != nil
+//@ ensures ncalls(Verify, 0) <= 1
+//@ modifies nothing
+
+// Seal signs exactly the encoding that validate checks, over exactly what it stores in the envelope.
+//@ func Seal
+//@ prop C08
+//@ callsite Sign#0 requires arg0 == privateKey && arg1 == ret(makeUnsigned, 0, 0) && ret(makeUnsigned, 0, 1) == nil &&
+//@         arg(makeUnsigned, 0, 0) == ret(Domain, 0, 0) && arg(makeUnsigned, 0, 1) == ret(Codec, 0, 0) &&
+//@         arg(makeUnsigned, 0, 2) == ret(MarshalRecord, 0, 0) && ret(MarshalRecord, 0, 1) == nil &&
+//@         arg(Domain, 0, 0) == rec && arg(Codec, 0, 0) == rec && arg(MarshalRecord, 0, 0) == rec
+//@ callsite Sign#0 requires ret(Domain, 0, 0) != "" && len(ret(Codec, 0, 0)) != 0
+//@ ensures result1 == nil ==> result0 != nil && fresh(result0) && called(Sign, 0) && ret(Sign, 0, 1) == nil && result0.signature == ret(Sign, 0, 0)
+//@ ensures result1 == nil ==> result0.PublicKey == ret(GetPublic, 0, 0) && arg(GetPublic, 0, 0) == privateKey
+//@ ensures result1 == nil ==> result0.PayloadType == ret(Codec, 0, 0) && result0.RawPayload == ret(MarshalRecord, 0, 0)
+//@ ensures result1 != nil ==> result0 == nil
+//@ modifies nothing
+
+// UnmarshalEnvelope: field mapping only; deliberately no validation (documented) - callers must not treat its
+// result as authenticated.
+//@ func UnmarshalEnvelope
+//@ prop C08
+//@ ensures result1 == nil ==> result0 != nil && fresh(result0) && result0.cached == nil && result0.unmarshalError == nil
+//@ ensures result1 != nil ==> result0 == nil
+//@ ensures result1 == nil ==> called(Unmarshal, 0) && ret(Unmarshal, 0, 0) == nil && arg(Unmarshal, 0, 0) == data
+//@ ensures result1 == nil ==> called(PublicKeyFromProto, 0) && ret(PublicKeyFromProto, 0, 1) == nil && result0.PublicKey == ret(PublicKeyFromProto, 0, 0) &&
+//@         arg(PublicKeyFromProto, 0, 0) == e.PublicKey
+//@ ensures called(Unmarshal, 0) && (result1 == nil ==> result0.PayloadType == e.PayloadType && result0.RawPayload == e.Payload && result0.signature == e.Signature)
+//@ modifies nothing
+
+// Marshal: the wire message carries exactly the envelope's key (PublicKeyToProto of it), payload type, payload
+// and signature - the mirror image of UnmarshalEnvelope's mapping.
+//@ func (e *Envelope) Marshal
+//@ prop C08
+//@ inline HandlePanic
+//@ callsite Marshal#0 requires arg(PublicKeyToProto, 0, 0) == e.PublicKey && ret(PublicKeyToProto, 0, 1) == nil && msg.PublicKey == ret(PublicKeyToProto, 0, 0) &&
+//@         msg.PayloadType == e.PayloadType && msg.Payload == e.RawPayload && msg.Signature == e.signature
+//@ ensures err == nil ==> called(PublicKeyToProto, 0) && ret(PublicKeyToProto, 0, 1) == nil && called(Marshal, 0) && ret(Marshal, 0, 1) == nil &&
+//@         res == ret(Marshal, 0, 0)
+//@ ensures called(PublicKeyToProto, 0) && ret(PublicKeyToProto, 0, 1) != nil ==> err != nil && res == nil
+//@ modifies nothing
+
+//@ func unmarshalRecordPayload
+//@ prop C08
+//@ inline HandlePanic
+//@ ensures err == nil ==> called(blankRecordForPayloadType, 0) && arg(blankRecordForPayloadType, 0, 0) == payloadType &&
+//@         ret(blankRecordForPayloadType, 0, 1) == nil && _rec == ret(blankRecordForPayloadType, 0, 0)
+//@ ensures err == nil ==> called(UnmarshalRecord, 0) && arg(UnmarshalRecord, 0, 0) == _rec && arg(UnmarshalRecord, 0, 1) == payloadBytes &&
+//@         ret(UnmarshalRecord, 0, 0) == nil
+//@ ensures err != nil ==> _rec == nil
+//@ modifies nothing
+
+// Record: returns the cached record; a non-nil cached record is never replaced; otherwise the cache is filled from
+// the envelope's own payload type and payload.
+//@ func (e *Envelope) Record
+//@ prop C08
+//@ ensures result0 == e.cached && result1 == e.unmarshalError
+//@ ensures old(e.cached) != nil ==> e.cached == old(e.cached) && e.unmarshalError == old(e.unmarshalError)
+//@ ensures (e.cached == old(e.cached) && e.unmarshalError == old(e.unmarshalError)) ||
+//@         (called(unmarshalRecordPayload, 0) && arg(unmarshalRecordPayload, 0, 0) == e.PayloadType && arg(unmarshalRecordPayload, 0, 1) == e.RawPayload &&
+//@          e.cached == ret(unmarshalRecordPayload, 0, 0) && e.unmarshalError == ret(unmarshalRecordPayload, 0, 1))
+//@ modifies e.cached, e.unmarshalError
+
+// ConsumeEnvelope: success implies the returned envelope is the unmarshalled input, validated for the domain asked
+// for, and the returned record is that envelope's record.
+//@ func ConsumeEnvelope
+//@ prop C08
+//@ ensures err == nil ==> envelope != nil && called(UnmarshalEnvelope, 0) && arg(UnmarshalEnvelope, 0, 0) == data &&
+//@         ret(UnmarshalEnvelope, 0, 1) == nil && envelope == ret(UnmarshalEnvelope, 0, 0)
+//@ ensures err == nil ==> called(validate, 0) && arg(validate, 0, 0) == envelope && arg(validate, 0, 1) == domain && ret(validate, 0, 0) == nil
+//@ ensures err == nil ==> called(Record, 0) && arg(Record, 0, 0) == envelope && ret(Record, 0, 1) == nil && rec == ret(Record, 0, 0)
+//@ ensures err == nil ==> fresh(envelope)
+//@ ensures err != nil ==> envelope == nil && rec == nil
+//@ ensures err == nil ==> envelope != nil
+//@ modifies nothing
+
+// ConsumeTypedEnvelope: the domain is the destination record's own domain; on a validation failure the
+// (unauthenticated) envelope is returned together with the error, as documented.
+//@ func ConsumeTypedEnvelope
+//@ prop C08
+//@ ensures err == nil ==> envelope != nil && called(UnmarshalEnvelope, 0) && arg(UnmarshalEnvelope, 0, 0) == data &&
+//@         ret(UnmarshalEnvelope, 0, 1) == nil && envelope == ret(UnmarshalEnvelope, 0, 0)
+//@ ensures err == nil ==> called(validate, 0) && arg(validate, 0, 0) == envelope && ret(validate, 0, 0) == nil &&
+//@         arg(validate, 0, 1) == ret(Domain, 0, 0) && arg(Domain, 0, 0) == destRecord
+//@ ensures err == nil ==> called(UnmarshalRecord, 0) && arg(UnmarshalRecord, 0, 0) == destRecord && arg(UnmarshalRecord, 0, 1) == envelope.RawPayload &&
+//@         ret(UnmarshalRecord, 0, 0) == nil && envelope.cached == destRecord
+//@ ensures called(UnmarshalRecord, 0) ==> called(validate, 0) && ret(validate, 0, 0) == nil
+//@ ensures err == nil ==> fresh(envelope)
+//@ ensures err == nil ==> envelope != nil
+//@ ensures envelope == nil || fresh(envelope)
+//@ modifies nothing
+
+// ---------------------------------------------------------------------------
+// Concrete model of the unsigned varint encoding (LEB128, as implemented by encoding/binary.AppendUvarint: 7 value
+// bits per byte, least significant group first, bit 0x80 set on every byte but the last) for 0 <= v < 2^63, and the
+// lemma that makes the length prefixes of makeUnsigned unambiguous: the encoding is prefix-free - if two encodings
+// agree on the bytes they have in common, the encoded values are equal. (uvlen/uvbyte used by the code contracts
+// are uninterpreted; identifying them with uvlenM/uvbyteM is the trusted specification of AppendUvarint.)
+//@ spec fn uvQ1(v int) int = fdiv(v, 128)
+//@ spec fn uvQ2(v int) int = fdiv(fdiv(v, 128), 128)
+//@ spec fn uvQ3(v int) int = fdiv(fdiv(fdiv(v, 128), 128), 128)
+//@ spec fn uvQ4(v int) int = fdiv(fdiv(fdiv(fdiv(v, 128), 128), 128), 128)
+//@ spec fn uvQ5(v int) int = fdiv(fdiv(fdiv(fdiv(fdiv(v, 128), 128), 128), 128), 128)
+//@ spec fn uvQ6(v int) int = fdiv(fdiv(fdiv(fdiv(fdiv(fdiv(v, 128), 128), 128), 128), 128), 128)
+//@ spec fn uvQ7(v int) int = fdiv(fdiv(fdiv(fdiv(fdiv(fdiv(fdiv(v, 128), 128), 128), 128), 128), 128), 128)
+//@ spec fn uvQ8(v int) int = fdiv(fdiv(fdiv(fdiv(fdiv(fdiv(fdiv(fdiv(v, 128), 128), 128), 128), 128), 128), 128), 128)
+//@ spec fn uvQ9(v int) int = fdiv(fdiv(fdiv(fdiv(fdiv(fdiv(fdiv(fdiv(fdiv(v, 128), 128), 128), 128), 128), 128), 128), 128), 128)
+//@ spec fn uvbM(q int) int = ite(q < 128, q, fmod(q, 128) + 128)
+//@ spec fn uvlenM(v int) int = ite(v < 128, 1, ite(uvQ1(v) < 128, 2, ite(uvQ2(v) < 128, 3, ite(uvQ3(v) < 128, 4, ite(uvQ4(v) < 128, 5, ite(uvQ5(v) < 128, 6, ite(uvQ6(v) < 128, 7, ite(uvQ7(v) < 128, 8, ite(uvQ8(v) < 128, 9, 10)))))))))
+//@ spec fn uvbyteM(v int, i int) int = ite(i <= 0, uvbM(v), ite(i == 1, uvbM(uvQ1(v)), ite(i == 2, uvbM(uvQ2(v)), ite(i == 3, uvbM(uvQ3(v)), ite(i == 4, uvbM(uvQ4(v)), ite(i == 5, uvbM(uvQ5(v)), ite(i == 6, uvbM(uvQ6(v)), ite(i == 7, uvbM(uvQ7(v)), ite(i == 8, uvbM(uvQ8(v)), uvbM(uvQ9(v)))))))))))
+//@ pred uvagree(v int, w int, i int) = i < min(uvlenM(v), uvlenM(w)) ==> uvbyteM(v, i) == uvbyteM(w, i)
+
+//@ lemma uv_prefix_free(v int, w int)
+//@ prop C08
+//@ requires 0 <= v && v < 9223372036854775808 && 0 <= w && w < 9223372036854775808
+//@ requires uvagree(v, w, 0) && uvagree(v, w, 1) && uvagree(v, w, 2) && uvagree(v, w, 3) && uvagree(v, w, 4) && uvagree(v, w, 5) &&
+//@          uvagree(v, w, 6) && uvagree(v, w, 7) && uvagree(v, w, 8)
+//@ ensures v == w
+
+// sanity of the model: 1..9 bytes, every byte but the last has bit 0x80, the last one does not, and the value is
+// recovered from the 7-bit groups (first two groups shown; the general statement is the prefix-freeness above)
+//@ lemma uv_model_sane(v int)
+//@ prop C08
+//@ requires 0 <= v && v < 9223372036854775808
+//@ ensures 1 <= uvlenM(v) && uvlenM(v) <= 9
+//@ ensures uvbyteM(v, uvlenM(v) - 1) < 128 && 0 <= uvbyteM(v, uvlenM(v) - 1)
+//@ ensures uvlenM(v) >= 2 ==> 128 <= uvbyteM(v, 0) && uvbyteM(v, 0) <= 255
+//@ ensures uvlenM(v) == 1 ==> uvbyteM(v, 0) == v
+//@ ensures uvlenM(v) == 2 ==> v == (uvbyteM(v, 0) - 128) + 128 * uvbyteM(v, 1)
+//@ ensures v == 300 ==> uvlenM(v) == 2 && uvbyteM(v, 0) == 172 && uvbyteM(v, 1) == 2
+
+// A length-prefixed field is self-delimiting: if two byte strings agree and each carries a field (in the model
+// layout) at the same offset, the two fields have the same length and the same bytes - so the next field starts at
+// the same offset in both, and by applying the lemma three times the pre-image uv(|d|) d uv(|t|) t uv(|p|) p signed
+// by Seal / checked by validate determines (domain, payload type, payload): no two different triples - in
+// particular none whose plain concatenations coincide - share a pre-image.
+//@ pred uvheadM(b []byte, at int, n int) = (0 < uvlenM(n) ==> b[at + 0] == uvbyteM(n, 0)) &&
+//@     (1 < uvlenM(n) ==> b[at + 1] == uvbyteM(n, 1)) &&
+//@     (2 < uvlenM(n) ==> b[at + 2] == uvbyteM(n, 2)) &&
+//@     (3 < uvlenM(n) ==> b[at + 3] == uvbyteM(n, 3)) &&
+//@     (4 < uvlenM(n) ==> b[at + 4] == uvbyteM(n, 4)) &&
+//@     (5 < uvlenM(n) ==> b[at + 5] == uvbyteM(n, 5)) &&
+//@     (6 < uvlenM(n) ==> b[at + 6] == uvbyteM(n, 6)) &&
+//@     (7 < uvlenM(n) ==> b[at + 7] == uvbyteM(n, 7)) &&
+//@     (8 < uvlenM(n) ==> b[at + 8] == uvbyteM(n, 8))
+//@ pred segM(b []byte, at int, f []byte) = uvheadM(b, at, len(f)) &&
+//@     (forall j int :: 0 <= j && j < len(f) ==> b[at + uvlenM(len(f)) + j] == f[j])
+
+//@ lemma seg_len_injective(a []byte, b []byte, at int, f []byte, g []byte)
+//@ prop C08
+//@ requires 0 <= at && 0 <= len(f) && len(f) < 9223372036854775808 && 0 <= len(g) && len(g) < 9223372036854775808
+//@ requires segM(a, at, f) && segM(b, at, g)
+//@ requires forall i int :: 0 <= i ==> a[i] == b[i]
+//@ ensures len(f) == len(g)
+
+//@ lemma seg_injective(a []byte, b []byte, at int, f []byte, g []byte)
+//@ prop C08
+//@ requires 0 <= at && 0 <= len(f) && len(f) < 9223372036854775808 && 0 <= len(g) && len(g) < 9223372036854775808
+//@ requires segM(a, at, f) && segM(b, at, g)
+//@ requires forall i int :: 0 <= i ==> a[i] == b[i]
+//@ requires len(f) == len(g)
+//@ ensures forall j int :: 0 <= j && j < len(f) ==> f[j] == g[j]
+
+// the three-field statement itself (model layout of makeUnsigned's result)
+//@ pred lenOK(f []byte) = 0 <= len(f) && len(f) < 9223372036854775808
+//@ pred enc3M(a []byte, d []byte, t []byte, p []byte) = segM(a, 0, d) && segM(a, uvlenM(len(d)) + len(d), t) &&
+//@     segM(a, uvlenM(len(d)) + len(d) + uvlenM(len(t)) + len(t), p)
+
+// lengths first, field by field (each step is seg_len_injective at the offset fixed by the previous steps)
+//@ lemma enc3_len_domain(a []byte, b []byte, d1 []byte, t1 []byte, p1 []byte, d2 []byte, t2 []byte, p2 []byte)
+//@ prop C08
+//@ requires lenOK(d1) && lenOK(t1) && lenOK(p1) && lenOK(d2) && lenOK(t2) && lenOK(p2)
+//@ requires enc3M(a, d1, t1, p1) && enc3M(b, d2, t2, p2)
+//@ requires forall i int :: 0 <= i ==> a[i] == b[i]
+//@ ensures len(d1) == len(d2)
+
+//@ lemma enc3_len_type(a []byte, b []byte, d1 []byte, t1 []byte, p1 []byte, d2 []byte, t2 []byte, p2 []byte)
+//@ prop C08
+//@ requires lenOK(d1) && lenOK(t1) && lenOK(p1) && lenOK(d2) && lenOK(t2) && lenOK(p2)
+//@ requires enc3M(a, d1, t1, p1) && enc3M(b, d2, t2, p2)
+//@ requires forall i int :: 0 <= i ==> a[i] == b[i]
+//@ requires len(d1) == len(d2)
+//@ ensures len(t1) == len(t2)
+
+//@ lemma enc3_len_payload(a []byte, b []byte, d1 []byte, t1 []byte, p1 []byte, d2 []byte, t2 []byte, p2 []byte)
+//@ prop C08
+//@ requires lenOK(d1) && lenOK(t1) && lenOK(p1) && lenOK(d2) && lenOK(t2) && lenOK(p2)
+//@ requires enc3M(a, d1, t1, p1) && enc3M(b, d2, t2, p2)
+//@ requires forall i int :: 0 <= i ==> a[i] == b[i]
+//@ requires len(d1) == len(d2) && len(t1) == len(t2)
+//@ ensures len(p1) == len(p2)
+
+//@ lemma enc3_injective(a []byte, b []byte, d1 []byte, t1 []byte, p1 []byte, d2 []byte, t2 []byte, p2 []byte)
+//@ prop C08
+//@ requires lenOK(d1) && lenOK(t1) && lenOK(p1) && lenOK(d2) && lenOK(t2) && lenOK(p2)
+//@ requires enc3M(a, d1, t1, p1) && enc3M(b, d2, t2, p2)
+//@ requires forall i int :: 0 <= i ==> a[i] == b[i]
+//@ requires len(d1) == len(d2) && len(t1) == len(t2) && len(p1) == len(p2)
+//@ ensures forall j int :: 0 <= j && j < len(d1) ==> d1[j] == d2[j]
+//@ ensures forall j int :: 0 <= j && j < len(t1) ==> t1[j] == t2[j]
+//@ ensures forall j int :: 0 <= j && j < len(p1) ==> p1[j] == p2[j]
+
+// bridge between the shape of the code contract (pred seg: quantified prefix, buffer-indexed) and the shape used by
+// the injectivity lemmas (pred segM: prefix unrolled to its at most 9 bytes, field-indexed): with uvlen/uvbyte read
+// as the model functions, seg implies segM.
+//@ pred segQ(b []byte, at int, f []byte) = (forall i int :: at <= i && i < at + uvlenM(len(f)) ==> b[i] == uvbyteM(len(f), i - at)) &&
+//@     (forall i int :: at + uvlenM(len(f)) <= i && i < at + uvlenM(len(f)) + len(f) ==> b[i] == f[i - (at + uvlenM(len(f)))])
+//@ lemma seg_model_bridge(b []byte, at int, f []byte)
+//@ prop C08
+//@ requires lenOK(f) && segQ(b, at, f)
+//@ ensures segM(b, at, f)
